@@ -178,7 +178,7 @@ def run_case(ctx, c):
     drop_ts = []
 
     def act(frame):
-        if dist == "lost":
+        if dist in ("lost", "request-lost"):
             drop_ts.append(frame.ts)
             return []
         if dist == "lost-late":
@@ -233,8 +233,12 @@ def run_case(ctx, c):
         st = stale_frames(kind, mux)[dist.split(":", 1)[1]]
         rig.bus.inject(rig.tx, st, src=rig.server_name)
         fired = True
+    elif dist == "request-lost":
+        # the k-th request never reaches the server (every request of these kinds has exactly one response)
+        rig.bus.fault = faults.OneShot(lambda f: f.src == "master" and f.can_id == rig.rx and not f.injected, k, act)
     else:
         rig.bus.fault = faults.OneShot(pred, k, act)
+    rig.sdo.MAX_RETRIES = c.get("retries", 1)            # documented knob: attempts per request
     exc, got = None, None
     try:
         got = do_transfer(rig, kind, mux, data)
@@ -251,7 +255,7 @@ def run_case(ctx, c):
         rig.close()
         return
     ctx.count("cases_judged")
-    sig = (c["peer"], kind, n, c["stepclass"], dist.split(":")[0], c.get("blk", 5))
+    sig = (c["peer"], kind, n, c["stepclass"], dist.split(":")[0], c.get("blk", 5), c.get("retries", 1))
     # ---- outcome classification
     if exc is None:
         if upload:
@@ -272,8 +276,10 @@ def run_case(ctx, c):
                       f"{kind} disturbed by {dist} at step {k} raised {exc!r}", c, trace)
     ctx.seen("outcomes", f"{kind}:{c['stepclass']}:{dist.split(':')[0]}:{outcome}")
     # ---- lost response: abort frame with the time-out code
-    if dist in ("lost", "lost-late"):
+    if dist in ("lost", "lost-late", "request-lost"):
         ctx.count("lost_cases")
+        if exc is None:
+            ctx.seen("recovered_by_retry", f"{kind}:{c['stepclass']}:{dist}:retries={c.get('retries', 1)}")
         if exc is not None:
             aborts = [f for f in rig.bus.log if f.src == "master" and f.can_id == rig.rx and f.data[:1] == b"\x80" and f.ts > drop_ts[0]]
             accepted = {TIMEOUT_CODE}
@@ -284,13 +290,16 @@ def run_case(ctx, c):
                 if later:
                     ctx.violation(f"client-continues-after-its-abort:{kind}",
                                   f"after aborting the timed-out transfer the client still sent {[f.data.hex() for f in later]}", c, trace)
-            if not aborts:
+            if not aborts and isinstance(exc, SdoAbortedError) and c.get("retries", 1) > 1:
+                pass        # the repeated request was refused by the server: the server has ended the transfer itself
+            elif not aborts:
                 ctx.violation(f"no-abort-after-lost-response:{kind}:{c['stepclass']}",
                               f"{kind}: response {k} ({c['stepclass']}) lost, call raised {exc!r}, but the client sent no abort frame", c, trace)
             else:
                 import struct
                 code = struct.unpack_from("<L", aborts[0].data, 4)[0]
-                if code not in accepted:
+                if code not in accepted and c.get("retries", 1) == 1:
+                    # (with a second attempt the abort answers whatever that attempt met, not the loss itself)
                     ctx.violation(f"wrong-abort-code-after-lost-response:{kind}:{c['stepclass']}",
                                   f"client abort code {code:#010x} after a lost response, expected {sorted(hex(a) for a in accepted)}", c, trace)
     # ---- late delivery of the lost response (after the call gave up)
@@ -373,8 +382,13 @@ def enumerate_cases(desc_run, cs):
                 dists.append("stale-queued:" + name)
             if k == 0:
                 dists.append("stale-before:" + name)
+        if not kind.startswith("blk"):
+            dists.append("request-lost")
         for d in dists:
             out.append({"peer": peer, "kind": kind, "n": n, "k": k, "dist": d, "stepclass": sc, "seed": rng.randint(0, 1 << 30), "blk": blk})
+            if d in ("lost", "lost-late", "request-lost"):
+                # the same loss with a second attempt allowed (SdoClient.MAX_RETRIES = 2)
+                out.append(dict(out[-1], retries=2, seed=rng.randint(0, 1 << 30)))
     return out
 
 
